@@ -757,22 +757,22 @@ func (e *Engine) maskAxioms(st *State, b ByteV) {
 func (e *Engine) indexAddr(st *State, fr *Frame, x *ssa.IndexAddr, idx Lin, iok bool) {
 	set := func(v ssa.Value, a AVal) { st.vals[vkey{fr.id, v}] = a }
 	switch b := e.val(st, fr, x.X).(type) {
-		case PtrV: // pointer to array
-			arr, isArr := b.T.Underlying().(*types.Array)
-			if !isArr {
-				e.Check(st, fr, x.Pos(), "B-idx", canonExpr(x), false, "unknown array base")
-				set(x, e.unk())
-				break
-			}
-			ok := iok && e.proveLE(st, K(0), idx) && e.proveLT(st, idx, K(arr.Len()))
-			e.Check(st, fr, x.Pos(), "B-idx", canonExpr(x), ok, fmt.Sprintf("cannot show 0 ≤ %s < %d", e.LinStr(idx), arr.Len()))
-			set(x, PtrV{Key: b.Key + "[" + idx.Key() + "]", Arr: b.Key, Idx: idx, T: arr.Elem()})
-		case SliceV:
-			ok := iok && e.proveLE(st, K(0), idx) && e.proveLT(st, idx, b.Len)
-			e.Check(st, fr, x.Pos(), "B-idx", canonExpr(x), ok, fmt.Sprintf("cannot show 0 ≤ %s < %s (len of %s)", e.LinStr(idx), e.LinStr(b.Len), b.Name))
-			set(x, PtrV{Key: b.Name + "[" + idx.Key() + "]", Arr: b.Name, Idx: idx, T: x.Type().(*types.Pointer).Elem()})
-		default:
-			e.Check(st, fr, x.Pos(), "B-idx", canonExpr(x), false, "unknown slice/array base")
+	case PtrV: // pointer to array
+		arr, isArr := b.T.Underlying().(*types.Array)
+		if !isArr {
+			e.Check(st, fr, x.Pos(), "B-idx", canonExpr(x), false, "unknown array base")
 			set(x, e.unk())
+			break
 		}
+		ok := iok && e.proveLE(st, K(0), idx) && e.proveLT(st, idx, K(arr.Len()))
+		e.Check(st, fr, x.Pos(), "B-idx", canonExpr(x), ok, fmt.Sprintf("cannot show 0 ≤ %s < %d", e.LinStr(idx), arr.Len()))
+		set(x, PtrV{Key: b.Key + "[" + idx.Key() + "]", Arr: b.Key, Idx: idx, T: arr.Elem()})
+	case SliceV:
+		ok := iok && e.proveLE(st, K(0), idx) && e.proveLT(st, idx, b.Len)
+		e.Check(st, fr, x.Pos(), "B-idx", canonExpr(x), ok, fmt.Sprintf("cannot show 0 ≤ %s < %s (len of %s)", e.LinStr(idx), e.LinStr(b.Len), b.Name))
+		set(x, PtrV{Key: b.Name + "[" + idx.Key() + "]", Arr: b.Name, Idx: idx, T: x.Type().(*types.Pointer).Elem()})
+	default:
+		e.Check(st, fr, x.Pos(), "B-idx", canonExpr(x), false, "unknown slice/array base")
+		set(x, e.unk())
+	}
 }
